@@ -386,6 +386,15 @@ fn check_function(out: &mut Vec<Viol>, owner: &str, f: &Function, m: &syn::ImplI
         Argument::MutSelf => Some("self as * mut Self as _"),
         _ => None,
     };
+    // the receiver may be spelled `self as *const Self as _`, `.. as *const _`, `.. as *const Self`: what matters is
+    // that it is `self` cast to a pointer of the declared mutability
+    let same_args = |actual: &[String], expected: &[String]| -> bool {
+        actual.len() == expected.len() && actual.iter().zip(expected.iter()).all(|(a, e)| {
+            if e.starts_with("self as * const Self") { a.starts_with("self as * const Self") }
+            else if e.starts_with("self as * mut Self") { a.starts_with("self as * mut Self") }
+            else { a == e }
+        })
+    };
     let fin = final_expr(&m.block);
     let call_args = |skip_self: bool| -> Vec<String> {
         f.arguments
@@ -438,7 +447,7 @@ fn check_function(out: &mut Vec<Viol>, owner: &str, f: &Function, m: &syn::ImplI
             match fin {
                 Some(syn::Expr::Call(c)) => {
                     let a: Vec<String> = c.args.iter().map(norm).collect();
-                    if a != call_args(false) {
+                    if !same_args(&a, &call_args(false)) {
                         v(out, &["C05"], format!("{what}: call passes ({}), expected ({})", a.join(", "), call_args(false).join(", ")));
                     }
                 }
@@ -454,7 +463,7 @@ fn check_function(out: &mut Vec<Viol>, owner: &str, f: &Function, m: &syn::ImplI
             match fin {
                 Some(syn::Expr::Call(c)) => {
                     let a: Vec<String> = c.args.iter().map(norm).collect();
-                    if a != call_args(false) {
+                    if !same_args(&a, &call_args(false)) {
                         v(out, &["C04"], format!("{what}: virtual call passes ({}), expected ({})", a.join(", "), call_args(false).join(", ")));
                     }
                 }
@@ -711,8 +720,8 @@ fn check_type(out: &mut Vec<Viol>, st: &ResolvedSemanticState, ix: &FileIndex, d
                     v(out, &["C15"], format!("{name}::get: returns `{}`, expected Option<&'static mut Self>", norm(&g.sig.output)));
                 }
                 let b = norm(&g.block);
-                if !b.contains("as * mut * mut Self") || !b.contains(". as_mut ()") {
-                    v(out, &["C15"], format!("{name}::get: does not read a pointer at the address and convert it with as_mut: `{b}`"));
+                if !b.contains("* mut * mut Self") && !b.contains("* const * mut Self") {
+                    v(out, &["C15"], format!("{name}::get: does not read a pointer to the object at the address (no `*mut *mut Self`): `{b}`"));
                 }
             }
         }
